@@ -203,6 +203,8 @@ func (s *Runner) RunOnRange(ctx context.Context, startKey, endKey []byte) error 
 
 	// Iterate all regions and send each region's range as a task to the workers.
 	key := startKey
+	// allPushed is set once the last sub-range (the one ending at endKey) has been handed to the workers.
+	allPushed := false
 Loop:
 	for {
 		select {
@@ -251,6 +253,7 @@ Loop:
 		metrics.TiKVRangeTaskPushDuration.WithLabelValues(s.name).Observe(time.Since(pushTaskStartTime).Seconds())
 
 		if isLast {
+			allPushed = true
 			break
 		}
 
@@ -272,6 +275,11 @@ Loop:
 				zap.Error(w.err))
 			return errors.WithStack(w.err)
 		}
+	}
+	if !allPushed {
+		// The context ended before the whole range was dispatched and no worker noticed it (the task channel was
+		// empty): the range is only partly handled, which must not be reported as success.
+		return errors.WithStack(ctx.Err())
 	}
 
 	logutil.Logger(ctx).Info("range task finished",
